@@ -28,6 +28,15 @@ def minv(M):
     return j[:, None] * np.swapaxes(M, -1, -2) * j[None, :]
 
 
+def form_residual_both(M):
+    """max of |M^T J M - J| and |M J M^T - J|, each relative to max|M|^2.  In exact
+    arithmetic one vanishes iff the other does; for a rounded matrix they can differ by a
+    factor |M|^2 (error on the left or on the right of the exact isometry), and the action
+    on row vectors x -> x M sees the second one."""
+    M = np.asarray(M, dtype=float)
+    return np.maximum(rh.form_residual(M), rh.form_residual(np.swapaxes(M, -1, -2)))
+
+
 def maxabs(M):
     return float(np.max(np.abs(np.asarray(M, dtype=float)))) if np.size(M) else 0.0
 
